@@ -217,6 +217,9 @@ type LeafPlan struct {
 	// one is set on the command line; OwnDefault: to a value equal to its own default (still an explicit choice)
 	TwoFlags   bool `json:"two_flags_bound,omitempty"`
 	OwnDefault bool `json:"flag_set_to_its_own_default,omitempty"`
+	// FlagDefault: the (single) bound flag has a non-zero default of its own, different from every other value: a flag that
+	// is not set on the command line is no source of the list, whatever its default
+	FlagDefault bool `json:"flag_has_its_own_default,omitempty"`
 }
 
 type Case struct {
@@ -244,6 +247,9 @@ func genCase(t *rapid.T) Case {
 		if contains(p.Sources, "flag") && !p.ZeroFlag && ls[i].Kind != reflect.Bool && rapid.IntRange(0, 5).Draw(t, fmt.Sprintf("l%d-twoflags", i)) == 0 {
 			p.TwoFlags = true
 			p.OwnDefault = rapid.Bool().Draw(t, fmt.Sprintf("l%d-owndefault", i))
+		}
+		if p.FlagBound && !p.TwoFlags && ls[i].Kind != reflect.Bool && rapid.IntRange(0, 3).Draw(t, fmt.Sprintf("l%d-flagdefault", i)) == 0 {
+			p.FlagDefault = true
 		}
 		c.Leaves = append(c.Leaves, p)
 	}
@@ -417,6 +423,14 @@ func checkCase(t ev.T, test string, c Case) {
 		} else if p.FlagBound {
 			name := fmt.Sprintf("f%d", i)
 			switch {
+			case p.FlagDefault && l.IsDur:
+				flags.Duration(name, valueFor(l, i+900, "default", true).(time.Duration), "")
+			case p.FlagDefault && l.Kind == reflect.String:
+				flags.String(name, valueFor(l, i+900, "default", true).(string), "")
+			case p.FlagDefault && l.Kind == reflect.Int:
+				flags.Int(name, valueFor(l, i+900, "default", true).(int), "")
+			case p.FlagDefault && l.Kind == reflect.Float64:
+				flags.Float64(name, valueFor(l, i+900, "default", true).(float64), "")
 			case l.IsDur:
 				flags.Duration(name, 0, "")
 			case l.Kind == reflect.String:
@@ -481,6 +495,11 @@ func checkCase(t ev.T, test string, c Case) {
 	var zeroRequired []leafInfo
 	for i, l := range ls {
 		got := l.get(tv).Interface()
+		if pl := c.Leaves[i]; pl.FlagDefault && !contains(pl.Sources, "flag") && len(pl.Sources) == 0 && reflect.DeepEqual(got, valueFor(l, i+900, "default", true)) {
+			// no source at all: that the default of the unset flag shows is not excluded by the statement
+			ev.Class("no source: the default of the unset flag shows")
+			continue
+		}
 		if !reflect.DeepEqual(got, expected[i]) {
 			ev.Fail(t, prop, test, c, "field %s (env %s): loaded %v, want %v from sources %v (flag > env > file > default); Load returned %v",
 				strings.Join(l.GoPath, "->"), envName(c.Prefix, l), got, expected[i], c.Leaves[i].Sources, lerr)
